@@ -292,6 +292,8 @@ func runC11(c *kit.Ctx) {
 	c.StartRule("K4", "explicit panics on the decode surface cannot be reached by peer data", 4)
 	responseIndicesAreUnique(c)
 	lookupErrorsAreTheKnownOnes(c)
+	constructorPanicsAreInputIndependent(c)
+	peerStringsNeverBecomeLabels(c, surface)
 	for _, f := range surface {
 		kit.Instrs(f, func(in ssa.Instruction) {
 			pn, ok := in.(*ssa.Panic)
